@@ -3,18 +3,47 @@ import Rbgp.Export.Spec
 namespace Rbgp.C09
 open Rbgp Rbgp.Term Rbgp.Export Rbgp.Export.Codec
 
-def verdictStr : Spec.Verdict → String
+def roleStr : Role → String
+  | .ebgp => "ebgp" | .rsClient => "rsc" | .ibgp => "ibgp" | .rrClient => "rrc" | .confed => "confed"
+
+def srcStr (s : Source) : String :=
+  match s.kind with
+  | .locl => "local"
+  | .kernel => "kernel"
+  | .peer => "peer-" ++ roleStr s.role
+
+/-- the cell of the role matrix a case sits in: source kind (and role) > receiver role -/
+def cellOf (c : ExportCase) : String :=
+  srcStr c.path.src ++ ">" ++ roleStr c.sess.ctx.role ++
+    (if Spec.isIbgpRole c.sess.ctx.role then (if c.sess.cluster.isSome then "+rr" else "") else "")
+
+/-- every failure names the cell, so that a recorded finding masks nothing else -/
+def verdictStr (cell : String) : Spec.Verdict → String
   | .ok => "ok"
-  | .fail c => s!"fail clause={c}"
+  | .fail c => s!"fail clause={c} {cell}"
+
+def expCell (c : ExportCase) : String := s!"src={srcStr c.path.src} dst={roleStr c.sess.ctx.role}"
+def rxCell (c : RxCase) : String := s!"from={roleStr c.role}"
+def wireCell (w : WireCase) : String :=
+  s!"wire from={roleStr (Spec.wRole w w.src)}" ++
+    (match w.dst with | some d => s!" dst={roleStr (Spec.wRole w d)}" | none => "")
+
+def isReachObs : Obs → Bool
+  | .reach _ _ _ => true
+  | _ => false
 
 /-- mode `model`: case ↦ observation of the model;
-    mode `oracle`: case TAB observation ↦ verdict of the C09 reference checker. -/
+    mode `oracle`: case TAB observation ↦ verdict of the C09 reference checker;
+    mode `stats`: case TAB observation ↦ counters (evidence only): the cell of the role matrix with
+    the number of advertisements seen in it, and whether the checker judged the case at all. -/
 def handler (mode : String) (line : String) : String :=
   match mode with
   | "model" =>
       match (parse line).bind caseOf? with
       | some (.exp c) => toStr (obsT (exportOne c))
+      | some (.exp2 c) => toStr (twiceT (exportTwice c))
       | some (.rx c) => toStr (installedT (rxInstalled c))
+      | some (.wire w) => toStr (wireObsT w.run)
       | none => "(bad-case)"
   | "oracle" =>
       match line.splitOn "\t" with
@@ -22,14 +51,62 @@ def handler (mode : String) (line : String) : String :=
           match (parse cs).bind caseOf? with
           | some (.exp c) =>
               match (parse os).bind obsOf? with
-              | some ob => verdictStr (Spec.checkExport c ob)
+              | some ob => verdictStr (expCell c) (Spec.checkExport c ob)
+              | none => "fail clause=unparsable-observation"
+          | some (.exp2 c) =>
+              match (parse os).bind twiceOf? with
+              | some ob => verdictStr (expCell c ++ " stale") (Spec.checkExport2 c ob.1 ob.2)
               | none => "fail clause=unparsable-observation"
           | some (.rx c) =>
               match (parse os).bind installedOf? with
-              | some b => verdictStr (Spec.checkRx c b)
+              | some b => verdictStr (rxCell c) (Spec.checkRx c b)
+              | none => "fail clause=unparsable-observation"
+          | some (.wire w) =>
+              match (parse os).bind wireObsOf? with
+              | some ob =>
+                  -- the inbound sentences do not depend on the receiver
+                  match Spec.checkRx (Spec.wRx w) ob.installed.isSome with
+                  | .fail x => s!"fail clause={x} wire from={roleStr (Spec.wRole w w.src)}"
+                  | .ok => verdictStr (wireCell w) (Spec.checkWire w ob)
               | none => "fail clause=unparsable-observation"
           | none => if os == "(bad-case)" then "ok" else "fail clause=bad-case-accepted-by-harness"
       | _ => "(bad-line)"
+  | "stats" =>
+      match line.splitOn "\t" with
+      | [cs, os] =>
+          match (parse cs).bind caseOf? with
+          | some (.exp c) =>
+              match (parse os).bind obsOf? with
+              | some ob =>
+                  let judged := if Spec.wfExport c then "exp-judged=1" else "exp-skipped-not-wf=1"
+                  s!"{judged} cell:{cellOf c}={if isReachObs ob then 1 else 0}"
+              | none => "unparsable=1"
+          | some (.exp2 c) =>
+              match (parse os).bind twiceOf? with
+              | some ob =>
+                  let again := match ob.2 with | .reach _ _ _ => 1 | _ => 0
+                  s!"exp2-judged={if Spec.wfExport c then 1 else 0} stale-readvertised={again}"
+              | none => "unparsable=1"
+          | some (.rx c) =>
+              let wf := Spec.codesDistinct c.attrs && c.attrs.all Attr.wf
+              let loops := (if Spec.rxAsLoop c then " rx-as-loop=1" else "") ++
+                (if Spec.rxOriginatorLoop c then " rx-originator-loop=1" else "") ++
+                (if Spec.rxClusterLoop c then " rx-cluster-loop=1" else "")
+              (if wf then "rx-judged=1" else "rx-skipped-not-wf=1") ++ loops
+          | some (.wire w) =>
+              match (parse os).bind wireObsOf? with
+              | some ob =>
+                  let r := Spec.wRx w
+                  let loops := (if Spec.rxAsLoop r then s!" wire-as-loop:{roleStr r.role}=1" else "") ++
+                    (if Spec.rxOriginatorLoop r then s!" wire-originator-loop:{roleStr r.role}=1" else "") ++
+                    (if Spec.rxClusterLoop r then s!" wire-cluster-loop:{roleStr r.role}=1" else "")
+                  let cell := match w.dst with
+                    | some d => s!" wirecell:{roleStr r.role}>{roleStr (Spec.wRole w d)}={if isReachObs ob.sent then 1 else 0}"
+                    | none => ""
+                  "wire-judged=1" ++ loops ++ cell
+              | none => "unparsable=1"
+          | none => "bad-case=1"
+      | _ => "bad-line=1"
   | _ => "(bad-mode)"
 
 end Rbgp.C09
